@@ -264,10 +264,14 @@ Definition ufield_wf (u : ufield) : bool :=
 (* the proto symbols the user's fields of ONE message stand for: the field ToSnake(name), the
    presence oneof "_<field>" of an optional singular field, the entry message <Camel>Entry of a map field,
    the inline type <Camel> of an inline field and the values of an inline enum *)
-Definition is_map_kind (u : ufield) : bool := match uf_kind u with KMap _ => true | _ => false end.
+(* `map:<type>`, or `map:object { .. }` / `map:oneof { .. }` / `map:enum { .. }` of an inline schema *)
+Definition is_inline_kind (u : ufield) : bool :=
+  match uf_kind u with KInlineObject _ => true | KInlineOneof _ => true | KInlineEnum _ => true | _ => false end.
+Definition is_map_kind (u : ufield) : bool :=
+  match uf_kind u with KMap _ => true | _ => is_inline_kind u && (uf_container u =? 2) end.
 (* only a singular field has a presence oneof: an optional array / map is a plain repeated field (fix d536c9b) *)
 Definition is_repeated_kind (u : ufield) : bool :=
-  match uf_kind u with KArray _ => true | KMap _ => true | _ => false end.
+  match uf_kind u with KArray _ => true | KMap _ => true | _ => is_inline_kind u && negb (uf_container u =? 0) end.
 Definition sp_presence (u : ufield) : bool := uf_optional u && negb (is_repeated_kind u).
 Definition sp_enum_value_name (prefix s : bytes) : bytes := if has_prefix prefix s then s else prefix ++ s.
 Definition sp_inline_enum_values (name : bytes) (opts : list bytes) : list bytes :=
